@@ -61,6 +61,8 @@ func init() {
 }
 
 func runC11(p *chk.Prog, r *chk.Report) {
+	// the additional-family assignment keeps the address already held (GAIN, shared with C03)
+	c03Converge(p, r)
 	c11Sibling(p, r)
 	c11Refresh(p, r)
 	c11Numeric(p, r)
@@ -118,6 +120,16 @@ func c11Sibling(p *chk.Prog, r *chk.Report) {
 			written[m] = true
 		}
 		if len(un.Graph().FindPat("RECV."+m+"[K].Delete(V)", chk.H("RECV", isRecv(un)))) > 0 {
+			cleaned[m] = true
+		}
+	}
+	// ... or through a local that stands for the pool's inner map (`users := a.poolIPsInUse[al.pool]; users[ip]--`)
+	for _, m := range allocMaps {
+		ag, ug := as.Graph(), un.Graph()
+		if len(ag.Find(isIncDec(as, "RECV."+m+"[P][K]", token.INC, chk.H("RECV", isRecv(as))))) > 0 || len(ag.Find(as.IsAssignPat("RECV."+m+"[P][K]", "V", chk.H("RECV", isRecv(as))))) > 0 {
+			written[m] = true
+		}
+		if len(ug.Find(isIncDec(un, "RECV."+m+"[P][K]", token.DEC, chk.H("RECV", isRecv(un))))) > 0 || len(ug.FindPat("delete(RECV."+m+"[P], K)", chk.H("RECV", isRecv(un)))) > 0 {
 			cleaned[m] = true
 		}
 	}
